@@ -219,10 +219,11 @@ package mail
 // ---------------------------------------------------------------------------
 // C20  SendError reflects the server's verdict (classification functions)
 //
+// (rooterr(e): the error e wraps, or e itself - a reply error may arrive wrapped, e.g. from ResetWithSMTPClient)
 //@ func mail.isTempError
-//@   ensures[C20:temp-iff-4yz] replyerr(err) ==> (result <==> ecode(err) / 100 == 4)
+//@   ensures[C20:temp-iff-4yz] replyerr(rooterr(err)) ==> (result <==> ecode(rooterr(err)) / 100 == 4)
 //@ func mail.errorCode
-//@   ensures[C20:code] replyerr(err) && 400 <= ecode(err) && ecode(err) <= 599 ==> result == ecode(err)
+//@   ensures[C20:code] replyerr(rooterr(err)) && 400 <= ecode(rooterr(err)) && ecode(rooterr(err)) <= 599 ==> result == ecode(rooterr(err))
 //@ func mail.enhancedStatusCode
 //@   ensures[C20:esc-only-when-advertised] !supported ==> result == ""
 //@ func mail.Client.sendSingleMsg (client, message) (err)
